@@ -387,6 +387,53 @@ orc_x86_get_simd_regname (int reg, OrcX86OpcodePrefix prefix)
   }
 }
 
+/* 256-bit AVX instructions whose register source is an XMM register:
+ * widening moves and conversions, and the count of shifts by register */
+static orc_bool
+avx_source_is_xmm (const OrcX86Insn *xinsn)
+{
+  switch (xinsn->opcode_index) {
+    case ORC_X86_pmovsxbw:
+    case ORC_X86_pmovsxbd:
+    case ORC_X86_pmovsxbq:
+    case ORC_X86_pmovsxwd:
+    case ORC_X86_pmovsxwq:
+    case ORC_X86_pmovsxdq:
+    case ORC_X86_pmovzxbw:
+    case ORC_X86_pmovzxbd:
+    case ORC_X86_pmovzxbq:
+    case ORC_X86_pmovzxwd:
+    case ORC_X86_pmovzxwq:
+    case ORC_X86_pmovzxdq:
+    case ORC_X86_cvtdq2pd:
+    case ORC_X86_cvtps2pd:
+    case ORC_X86_psraw:
+    case ORC_X86_psrlw:
+    case ORC_X86_psllw:
+    case ORC_X86_psrad:
+    case ORC_X86_psrld:
+    case ORC_X86_pslld:
+    case ORC_X86_psrlq:
+    case ORC_X86_psllq:
+      return TRUE;
+    default:
+      return FALSE;
+  }
+}
+
+/* 256-bit AVX instructions whose destination is an XMM register */
+static orc_bool
+avx_dest_is_xmm (const OrcX86Insn *xinsn)
+{
+  switch (xinsn->opcode_index) {
+    case ORC_X86_cvtpd2ps:
+    case ORC_X86_cvttpd2dq:
+      return TRUE;
+    default:
+      return FALSE;
+  }
+}
+
 static OrcX86OpcodePrefix
 get_common_reg_type (OrcX86Insn *xinsn)
 {
@@ -482,7 +529,9 @@ orc_x86_insn_output_asm (OrcCompiler *p, OrcX86Insn *xinsn)
     case ORC_X86_INSN_TYPE_IMM8_MMXM_MMX:
       if (xinsn->type == ORC_X86_RM_REG) {
         sprintf(src_op, "%%%s, ",
-            orc_x86_get_simd_regname (operand1, is_sse));
+            orc_x86_get_simd_regname (operand1,
+                (is_sse == ORC_X86_AVX_VEX256_PREFIX && avx_source_is_xmm (xinsn)) ?
+                ORC_X86_AVX_VEX128_PREFIX : is_sse));
       } else if (xinsn->type == ORC_X86_RM_MEMOFFSET) {
         sprintf(src_op, "%d(%%%s), ", xinsn->offset,
             orc_x86_get_regname_ptr (p, operand1));
@@ -681,7 +730,9 @@ orc_x86_insn_output_asm (OrcCompiler *p, OrcX86Insn *xinsn)
     case ORC_X86_INSN_TYPE_REGM_MMX:
     case ORC_X86_INSN_TYPE_IMM8_MMX_SHIFT:
       sprintf(dst_op, "%%%s",
-            orc_x86_get_simd_regname (xinsn->dest, is_sse));
+            orc_x86_get_simd_regname (xinsn->dest,
+                (is_sse == ORC_X86_AVX_VEX256_PREFIX && avx_dest_is_xmm (xinsn)) ?
+                ORC_X86_AVX_VEX128_PREFIX : is_sse));
       break;
     case ORC_X86_INSN_TYPE_MMXM_MMX_REV:
     case ORC_X86_INSN_TYPE_SSEM_SSE_REV:
